@@ -47,6 +47,10 @@ s.mutants = SEND_MUTANTS['C01']
 UNITS = [r, s, MQUnit(keep=keep_for('C01.')), LemmaUnit('C01.rejoin lemma', rejoin_lemmas), AssemblyUnit()]
 UNITS[2].mutants = tuple(m for m in MQUnit.mutants if 'C01' in m[4])
 
+# the state the real constructor leaves is the `fresh` entry state the receiver unit starts its first call from
+from .recvinit import InitStateUnit
+UNITS.append(InitStateUnit())
+
 
 def extra_checks(tier, seed, pool):
     from .recvunit import bounded_histories
